@@ -78,6 +78,10 @@ class Ctx:
     def label(self, *names):
         self.labels.extend(names)
 
+    def tally(self, name, n):
+        """add n to a named counter reported in the evidence (e.g. indices checked inside a block case)"""
+        self.labels.append((name, int(n)))
+
     def nt(self, flag=True):
         if flag:
             self.nontrivial = True
@@ -205,7 +209,10 @@ class Stats:
         self.evaluations += 1
         fp = fingerprint(case) if fp is None else fp
         for l in ctx.labels:
-            self.labels[l] += 1
+            if isinstance(l, tuple):
+                self.labels[l[0]] += l[1]
+            else:
+                self.labels[l] += 1
         if excluded:
             for e in ctx.excluded:
                 self.excluded[e] += 1
